@@ -20,10 +20,16 @@ TraceNext ==
      THEN /\ live' = {} /\ dead' = {} /\ kidmap' = [d \in Digests |-> NoKid]
           /\ last' = [pre |-> J({}, {}, kidmap'), op |-> e.op, res |-> [ok |-> TRUE], post |-> J({}, {}, kidmap')]
      ELSE LET r == Apply(live, dead, kidmap, e.op)
-          IN /\ r.res = e.res
-             /\ J(r.live, r.dead, r.kidmap) = e.post
-             /\ live' = r.live /\ dead' = r.dead /\ kidmap' = r.kidmap
-             /\ last' = [pre |-> J(live, dead, kidmap), op |-> e.op, res |-> r.res, post |-> e.post]
+              \* the contract says what a store may accept, not what it must: a store may refuse a generate / insert /
+              \* sign the reference accepts, provided nothing changes (named action Refuse)
+              refuse == e.op.name \in {"generate", "insert", "sign"} /\ ~e.res.ok /\ e.post = J(live, dead, kidmap)
+          IN \/ /\ r.res = e.res
+                /\ J(r.live, r.dead, r.kidmap) = e.post
+                /\ live' = r.live /\ dead' = r.dead /\ kidmap' = r.kidmap
+                /\ last' = [pre |-> J(live, dead, kidmap), op |-> e.op, res |-> r.res, post |-> e.post]
+             \/ /\ refuse
+                /\ UNCHANGED <<live, dead, kidmap>>
+                /\ last' = [pre |-> J(live, dead, kidmap), op |-> e.op, res |-> [ok |-> FALSE], post |-> e.post]
 
 TraceSpec == TraceInit /\ [][TraceNext]_tvars
 TraceStepProp == [][last'.op.name = "reset" \/ StepLaws]_tvars
